@@ -92,7 +92,7 @@ Section WriteRow.
         { intro E. assert (Hp : present = true).
           { apply present_spec. unfold vids. apply in_map_iff. exists r. split; [|exact H].
             unfold vid. congruence. }
-          unfold present in Hp. congruence. }
+          congruence. }
         specialize (LE r H). split; [lia|]. exists r. auto.
       + left. simpl. auto.
   Qed.
@@ -212,7 +212,7 @@ Section Chain.
       assert (Hcl : r = r1).
       { destruct (same_key k r1 && sql_eq (Some (vtx r1)) (max_below vt k T)) eqn:C; [|auto].
         exfalso. apply andb_true_iff in C as [_ C]. apply sql_eq_some in C as [y [Y1 Y2]].
-        inversion Y1; subst y. symmetry in Y2. apply max_below_some in Y2 as [[p [_ [_ [Hp Hlt]]]] _]. lia. }
+        inversion Y1; subst y. apply max_below_some in Y2 as [[p [_ [_ [Hp Hlt]]]] _]. lia. }
       subst r1. rewrite HT.
       assert (Hnone' : min_above vt1 k T = None).
       { apply min_above_none. intros x Hx _. eapply vt1_le; eauto. }
